@@ -1530,6 +1530,10 @@ class Path:
             c = self.ex.contract_for(info)
             if c is not None:
                 return self.ex.call_contract(self, c, info, args, kwargs, is_init)
+            if info.cls is None and info.name in self.ex.opaque_specs and not kwargs:
+                r = self.ex.call_opaque(self, info, args)
+                if r is not None:
+                    return r
         self.depth += 1
         if self.depth > self.ex.max_depth:
             raise Unsupported(f'call depth exceeded at {info.qualname}')
